@@ -634,6 +634,12 @@ fn run_ops<'db>(db: &'db dyn Vd, ctx: &Ctx, f: &mut Frame<'db>, ops: &[Op]) {
                 let out = do_call(db, ctx, f, *node, *arg);
                 f.acc |= (out.v << 1) & 0xFF;
             }
+            Op::CallSat { node, arg, mask } => {
+                if f.acc & *mask != *mask {
+                    let out = do_call(db, ctx, f, *node, *arg);
+                    f.acc |= out.v & *mask;
+                }
+            }
             Op::CallInc { node, arg, slot, field } => {
                 let cap = read_slot(db, ctx, f, *slot, *field);
                 let out = do_call(db, ctx, f, *node, *arg);
